@@ -1,5 +1,5 @@
 """Named history generators used by campaign shards: name -> fn(machine, rng, job) -> (oplist, meta)."""
-from .drivers import history
+from .drivers import history, funcs
 
 
 def gen_history(m, rng, job):
@@ -8,4 +8,6 @@ def gen_history(m, rng, job):
     return g.run(job.get('nops', 10), epilogue=job.get('epilogue', ())), {}
 
 
-GENERATORS = {'history': gen_history, 'render_family': history.gen_render_family, 'parse_input': history.gen_parse_input}
+GENERATORS = {'history': gen_history, 'render_family': history.gen_render_family, 'parse_input': history.gen_parse_input,
+              'pgs': funcs.gen_pgs, 's2d': funcs.gen_s2d, 'pcs': funcs.gen_pcs, 'helper': funcs.gen_helper,
+              'aset': funcs.gen_aset, 'aset_extra': funcs.gen_aset_extra}
